@@ -512,6 +512,9 @@ func (ps *pathState) concretize(t *term) uint64 {
 	for _, x := range excl {
 		cs = append(cs, tNot(tCmp("=", t, tConst(t.w, x))))
 	}
+	// name the term before the query: definitions made while printing it must be sent (and live)
+	// outside the query's push scope
+	tref := ps.pr.ref(t)
 	r := ps.check(tAnd(cs...))
 	if r != "sat" {
 		ps.popQuery()
@@ -522,7 +525,7 @@ func (ps *pathState) concretize(t *term) uint64 {
 	}
 	// evaluate t in the model
 	probe := ps.w.solver
-	probe.send(fmt.Sprintf("(get-value (%s))\n", ps.pr.ref(t)))
+	probe.send(fmt.Sprintf("(get-value (%s))\n", tref))
 	resp := probe.readSexp()
 	ps.popQuery()
 	v, ok := parseGetValueSingle(resp)
